@@ -117,7 +117,7 @@ fn history<const D: usize>(hid: usize, rng: &mut Rng, out: &mut Out, steps: usiz
 
 pub fn run(cfg: &Cfg, rng: &mut Rng, out: &mut Out) {
     let thorough = cfg.tier == "thorough";
-    let nh = if thorough { 40 } else { 5 };
+    let nh = if thorough { 40 } else { 16 };
     for h in 0..nh {
         history::<2>(h, rng, out, if thorough { 12 } else { 6 });
         history::<3>(h, rng, out, if thorough { 10 } else { 5 });
